@@ -171,6 +171,35 @@ def _w_filters(chunk):
     return r
 
 
+def _w_chain(chunk):
+    """Generated graphs at higher orders whose trimming needs several late rounds of one vertex."""
+    r = core.Res()
+    for k, mask in chunk:
+        for t in (1, 2):
+            tag, G, acc = gen.gen_from_mask(k, mask, t)
+            r.trans += 1
+            if tag == 'ok':
+                live = sorted(O.has_arcs(G))
+                check_graph(r, k, G, acc, t, 2, starts=live[:3] + live[-3:])
+                r.ctr['chain_graphs'] += 1
+            elif tag != 'ValueError':
+                r.v('C04|generation|t=%d|%s' % (t, tag), 'gen', {'k': k, 'mask': sorted(mask), 't': t})
+    return r
+
+
+def _w_longmsg(args):
+    """Tightness on long messages (decimal numbers of 40-80 digits)."""
+    name, k, G, start, bits, fast = args
+    r = core.Res()
+    live = O.has_arcs(G)
+    degset = {len(O.outs(G, v)) for v in live}
+    t = min(degset)
+    enc_case(r, k, G, U.A(G), start, bits, fast, t, len(live), degset == {4} and len(live) == len(G))
+    r.ctr['long_messages'] += 1
+    r.maxi('long_message_bits', len(bits))
+    return r
+
+
 def run(ctx):
     from ..observe import install
     import dsw
@@ -198,7 +227,26 @@ def run(ctx):
         menu = [m for i, m in enumerate(menu) if m[0] <= 3 or m[1][0] != 'local' or (m[1][1][3] in (None, ['GC']) and m[1][1][2] in (None, ('0.4', '0.6'), ('0.25', '0.75'), ('0.5', '0.5')))]
     menu.sort(key=lambda x: -x[0])
     ctx.pmap(_w_filters, [(Lmax, c) for c in core.chunks_of(menu, 3)])
-    ctx.bounds = {'order2': 'every distinct graph generation returns over all 65536 masks x t=1..4, every retained start',
+    from .C03 import chain_masks
+    ctx.pmap(_w_chain, [[c] for c in chain_masks((3, 5, 6, 7) if ctx.quick else (3, 4, 5, 6, 7, 8))])
+    jobs = []
+    for name, k, G in coder.fixed_graphs():
+        if name not in ('complete-2', 'complete-3', 'gc-balanced-literal', 'ternary-2', 'mixed-1234', 'mixed-order1', 'filter-3-k3-t1'):
+            continue
+        live = sorted(O.has_arcs(G))
+        if not O.wellformed_start(G, live[0]):
+            continue
+        for L in (129, 131, 135, 200, 255, 257):
+            for bits in coder.long_messages([L])[:5]:
+                jobs.append((name, k, G, live[0], bits, False))
+                if coder.no_deg3(G, O.reach(G, live[0])):
+                    jobs.append((name, k, G, live[0], bits, True))
+    ctx.pmap(_w_longmsg, jobs)
+    ctx.guard('long messages', ctx.res.ctr['long_messages'] > 100)
+    ctx.guard('chain graphs', ctx.res.ctr['chain_graphs'] > 10)
+    ctx.bounds = {'long_messages': 'lengths 129,131,135,200,255,257 x 5 patterns on 6 fixed graphs (tightness and length bounds)',
+                  'chain_masks': 'binary complete subgraph plus a dead-ending chain of 1,2,3,5 vertices at orders 3..7 (8), t=1,2',
+                  'order2': 'every distinct graph generation returns over all 65536 masks x t=1..4, every retained start',
                   'messages_up_to': Lmax, 'filter_menu_configurations': len(menu), 'filter_k': [2, 4 if ctx.quick else 5]}
     ctx.rule = ('graph: one case = one distinct generated graph: shift-append arcs, no dead end, min out-degree >= t, no cycle among '
                 'out-degree-1 vertices (=> encoding terminates for every message length); encode: one case = (graph, retained start, '
